@@ -83,6 +83,7 @@ type Track struct {
 	// ("uncompressed" entries). A value k in the list means: start a new run
 	// at sample index k (stts/ctts) or at chunk index k (stsc), 0-based.
 	SplitStts, SplitCtts, SplitStsc []int
+	ZeroCountStts                   bool // an stts entry with sample_count 0 in front of every run started by SplitStts
 	StblOrder                       []string // order of the children after stsd; nil = default
 
 	TkhdVersion, MdhdVersion, ElstVersion byte
@@ -221,6 +222,10 @@ func (t *Track) computeTables() error {
 		if k := len(tb.Stts); k > 0 && tb.Stts[k-1].Delta == s.Dur && !cs[i] {
 			tb.Stts[k-1].Count++
 		} else {
+			if t.ZeroCountStts && cs[i] && i > 0 {
+				// an entry that covers no sample (sample_count 0) in front of the new run
+				tb.Stts = append(tb.Stts, SttsRun{0, s.Dur + 7})
+			}
 			tb.Stts = append(tb.Stts, SttsRun{1, s.Dur})
 		}
 	}
